@@ -49,7 +49,7 @@ def main():
         for pid in g:
             props += prop_text(pid).rstrip() + "\n\nSeeded defects that ALREADY exist for this property (yours must differ in mechanism AND code location):\n"
             props += existing(pid) + "\n\n----------------------------------------\n\n"
-        s = tmpl.replace("__WT__", "/tmp/seed/w%d" % i).replace("__K__", "2").replace("__PROPS__", props + "\n\n" + note)
+        s = tmpl.replace("__WT__", "/tmp/seed/w%d" % i).replace("__K__", os.environ.get("SEED_K", "2")).replace("__PROPS__", props + "\n\n" + note)
         open("/tmp/seed/%s%d.txt" % (prefix, i), "w").write(s)
         print("/tmp/seed/%s%d.txt" % (prefix, i), g, len(s))
 
